@@ -31,6 +31,8 @@ EXHAUSTIVE = {'quick': False, 'thorough': False}
 CASE_TIMEOUT = 30
 
 KNOWN_SIG = 'C17|TracerMixin.trace_t<-solve*|trace-width-mismatch-on-repeated-solve|ValueError'
+STALE_SIG = 'C17|TracerMixin.trace_t<-solve*|stale-names-on-repeated-solve|snapshots-filed-under-other-names'
+ALIAS_SIG = 'C17|Trace.names|is-the-models-own-names-list|names-grow-after-add_variable'
 
 
 # --------------------------------------------------------------------------- the trace= argument
@@ -142,7 +144,19 @@ def impl(case):
         tw['traces_untouched'] = all(len(t.index) == 0 and t.values.shape == (0,) for t in u.__dict__['_trace'])
         s['twin'] = tw
         steps.append(s)
-    return {'steps': steps}
+    return {'steps': steps, 'names_follow_model': _names_follow_model(m)}
+
+
+def _names_follow_model(m):
+    """After everything else was observed: add a variable to the model and report the periods whose (non-empty) Trace
+    changed its `names` because of that — a Trace is a record of a finished solve and must not move with the model."""
+    trs = list(m.__dict__['_trace'])
+    before = [list(t.names) for t in trs]
+    try:
+        m.add_variable('ZZ9', 0.0)
+    except Exception as ex:
+        return ['add_variable failed: ' + type(ex).__name__]
+    return [p for p, t in enumerate(trs) if len(t.index) and list(t.names) != before[p]]
 
 
 # --------------------------------------------------------------------------- parser-built (C01-grammar) models
@@ -215,7 +229,7 @@ def impl_parsed(case):
             ps.append(acts)
     derived = {'nvars': nv, 'check': [names.index(x) for x in m.check], 'endo': [names.index(x) for x in m.endogenous],
                'lags': int(m.lags), 'leads': int(m.leads), 'scripts': scripts, 'vals': vals0}
-    return {'steps': [s], 'derived': derived}
+    return {'steps': [s], 'derived': derived, 'names_follow_model': _names_follow_model(m)}
 
 
 def _full(case, obs):
@@ -417,6 +431,10 @@ def oracle(case, obs):
             if not reset:
                 _check_shapes(case, call, ci, s, prev, names, periods, bad)
         prev = {'vals': s['vals'], 'status': s['status'], 'iters': s['iters'], 'traces': s['traces']}
+    nf = obs.get('names_follow_model') or []
+    if nf:
+        bad(ALIAS_SIG, 'after m.add_variable(...) the Trace of period(s) %s lists the new variable in .names although it holds no row for it '
+            '(trace=True stores self.names itself, not a copy)' % nf)
     return fails
 
 
@@ -460,6 +478,10 @@ def _check_shapes(case, call, ci, s, prev, names, periods, bad):
             continue
         if not before['values'] and after['names'] != names:
             bad('C17|%s|trace-names' % ent, 'call %d period %d: Trace.names=%s, traced variables=%s' % (ci, p, after['names'], names))
+        if before['values'] and after != before and after['names'] != names:
+            # (same width, or the call would have died: finding #16) the snapshots just appended hold `names`, the Trace says otherwise
+            bad(STALE_SIG, 'call %d period %d: %s(..., trace=%r) appended snapshots of variables %s to a Trace whose names stay %s'
+                % (ci, p, ent, py_trace(call.get('trace', ['omit'])), names, after['names']))
         new_idx = after['index'][nb:]
         new_val = after['values'][len(before['values']):]
         if len(new_idx) != len(new_val):
@@ -660,6 +682,15 @@ def gen(rng, tier):
     o = _apply_scenario(c, 1, scen[0])
     c['calls'] = [_call('solve_t', 1, 4, o, ['name', 0]), _call('solve_t', 1, 4, o, ['list', [0, 1]], True), _call('solve_t', 1, 4, o, ['name', 1])]
     cases.append(c)
+    # ---- solve(): the case splits of iter_periods / label validation, traced
+    for lags, leads, n, st, en in [(0, 0, 4, None, None), (1, 1, 4, None, None), (2, 2, 4, None, None), (3, 0, 3, None, None), (0, 3, 3, None, None),
+                                   (4, 0, 3, None, None), (0, 5, 3, None, None), (1, 0, 1, None, None), (0, 0, 4, 3, 1), (0, 0, 4, 2, 2),
+                                   (0, 0, 4, -3, None), (0, 0, 4, None, 9), (0, 0, 4, 9, -3), (1, 1, 4, 0, 3), (1, 0, 4, None, 0)]:
+        for a in (['flag', True], ['name', 1], ['omit']):
+            c = _case(n=n, lags=lags, leads=leads)
+            o = _apply_scenario(c, min(1, n - 1), scen[0])
+            c['calls'] = [_call('solve', 0, n, o, a, None, start=st, end=en), _call('solve', 0, n, o, a, None, start=st, end=en)]
+            cases.append(c)
     # ---- structured lattice: scenario x entry x trace kind x reset
     for si, sn in enumerate(scen):
         for entry in ('solve_t', 'solve_period', 'solve'):
@@ -850,7 +881,14 @@ def _random_case(rng, scen):
             en = hi if rng.random() < 0.8 else None
             if (st is None and lags >= n) or (en is None and leads >= n):
                 st, en = lo, hi
-            calls.append(_call('solve', p, n, o, a, reset, start=st, end=en))
+            cl = _call('solve', p, n, o, a, reset, start=st, end=en)
+            # labels solve() must reject itself (KeyError before anything is solved or traced)
+            r2 = rng.random()
+            if r2 < 0.03:
+                cl['start'] = rng.choice([1999, 2000 + n, 2000 + n + 7, -1])
+            elif r2 < 0.06:
+                cl['end'] = rng.choice([1999, 2000 + n, 2000 + n + 7, 0])
+            calls.append(cl)
         else:
             calls.append(_call(entry, p, n, o, a, reset, neg=rng.random() < 0.3))
     # out-of-domain endings (always the last call): unknown name, t outside the span, unknown label
